@@ -388,13 +388,15 @@ pub fn bodies(tier: &str) -> Vec<BodySpec> {
     let writer = vec![Batch(vec![("x", "a", "1"), ("y", "b", "1")]), Batch(vec![("x", "a", "2"), ("y", "a", "2")])];
     let reader = vec![SnapRead(vec![("x", "a"), ("y", "b"), ("y", "a")])];
     let mut v = vec![
-        b(VisBody { name: "batch|snapshot", kind: Kind::Plain, workers: 0, keyspaces: vec!["x", "y"], initial: init.clone(), prerotate: vec![], threads: vec![writer.clone(), reader.clone()], finals: Finals::None }, if q { 2 } else { 3 }, if q { 5.0 } else { 120.0 }),
-        b(VisBody { name: "batch|snapshot|worker-flush-z", kind: Kind::Plain, workers: 1, keyspaces: vec!["x", "y", "z"], initial: { let mut i = init.clone(); i.push(("z", "a", "0")); i }, prerotate: vec!["z"], threads: vec![writer.clone(), reader.clone()], finals: Finals::None }, if q { 2 } else { 3 }, if q { 9.0 } else { 300.0 }),
-        b(VisBody { name: "batch|snapshot|insert-other", kind: Kind::Plain, workers: 0, keyspaces: vec!["x", "y", "z"], initial: init.clone(), prerotate: vec![], threads: vec![vec![Batch(vec![("x", "a", "1"), ("x", "b", "1"), ("y", "b", "1")])], reader.clone(), vec![Ins(("z", "a", "9"))]], finals: Finals::None }, if q { 2 } else { 3 }, if q { 7.0 } else { 200.0 }),
-        b(VisBody { name: "batch|scan|insert-other", kind: Kind::Plain, workers: 0, keyspaces: vec!["x", "z"], initial: vec![("x", "a", "0"), ("x", "b", "0")], prerotate: vec![], threads: vec![vec![Batch(vec![("x", "a", "1"), ("x", "b", "1")])], vec![Scan("x")], vec![Ins(("z", "a", "9"))]], finals: Finals::None }, if q { 2 } else { 3 }, if q { 5.0 } else { 120.0 }),
-        b(VisBody { name: "occ-tx|snapshot|create-keyspace", kind: Kind::Occ, workers: 0, keyspaces: vec!["x", "y"], initial: init.clone(), prerotate: vec![], threads: vec![vec![Tx(vec![("x", "a", "1"), ("y", "b", "1")])], reader.clone(), vec![CreateKs("n")]], finals: Finals::None }, if q { 1 } else { 2 }, if q { 5.0 } else { 200.0 }),
-        b(VisBody { name: "sw-tx|snapshot|rotate-x", kind: Kind::Sw, workers: 0, keyspaces: vec!["x", "y"], initial: init.clone(), prerotate: vec![], threads: vec![vec![Tx(vec![("x", "a", "1"), ("y", "b", "1")])], reader.clone(), vec![Rotate("x")]], finals: Finals::None }, if q { 1 } else { 2 }, if q { 5.0 } else { 200.0 }),
+        b(VisBody { name: "batch|snapshot", kind: Kind::Plain, workers: 0, keyspaces: vec!["x", "y"], initial: init.clone(), prerotate: vec![], threads: vec![writer.clone(), reader.clone()], finals: Finals::None }, if q { 2 } else { 3 }, if q { 4.0 } else { 120.0 }),
+        b(VisBody { name: "batch|snapshot|worker-flush-z", kind: Kind::Plain, workers: 1, keyspaces: vec!["x", "y", "z"], initial: { let mut i = init.clone(); i.push(("z", "a", "0")); i }, prerotate: vec!["z"], threads: vec![writer.clone(), reader.clone()], finals: Finals::None }, if q { 1 } else { 3 }, if q { 3.0 } else { 300.0 }),
+        b(VisBody { name: "batch|snapshot|insert-other", kind: Kind::Plain, workers: 0, keyspaces: vec!["x", "y", "z"], initial: init.clone(), prerotate: vec![], threads: vec![vec![Batch(vec![("x", "a", "1"), ("x", "b", "1"), ("y", "b", "1")])], reader.clone(), vec![Ins(("z", "a", "9"))]], finals: Finals::None }, if q { 1 } else { 3 }, if q { 3.0 } else { 200.0 }),
+        b(VisBody { name: "batch|scan|insert-other", kind: Kind::Plain, workers: 0, keyspaces: vec!["x", "z"], initial: vec![("x", "a", "0"), ("x", "b", "0")], prerotate: vec![], threads: vec![vec![Batch(vec![("x", "a", "1"), ("x", "b", "1")])], vec![Scan("x")], vec![Ins(("z", "a", "9"))]], finals: Finals::None }, if q { 2 } else { 3 }, if q { 4.0 } else { 120.0 }),
+        b(VisBody { name: "occ-tx|snapshot|create-keyspace", kind: Kind::Occ, workers: 0, keyspaces: vec!["x", "y"], initial: init.clone(), prerotate: vec![], threads: vec![vec![Tx(vec![("x", "a", "1"), ("y", "b", "1")])], reader.clone(), vec![CreateKs("n")]], finals: Finals::None }, if q { 1 } else { 2 }, if q { 3.0 } else { 200.0 }),
+        b(VisBody { name: "sw-tx|snapshot|rotate-x", kind: Kind::Sw, workers: 0, keyspaces: vec!["x", "y"], initial: init.clone(), prerotate: vec![], threads: vec![vec![Tx(vec![("x", "a", "1"), ("y", "b", "1")])], reader.clone(), vec![Rotate("x")]], finals: Finals::None }, if q { 1 } else { 2 }, if q { 3.0 } else { 200.0 }),
     ];
+    v.push(b(VisBody { name: "batch|snapshot|worker-flush-z [focus:commit-path]", kind: Kind::Plain, workers: 1, keyspaces: vec!["x", "y", "z"], initial: { let mut i = init.clone(); i.push(("z", "a", "0")); i }, prerotate: vec!["z"], threads: vec![writer.clone(), reader.clone()], finals: Finals::None }, if q { 2 } else { 3 }, if q { 6.0 } else { 300.0 }));
+    v.push(b(VisBody { name: "2 batch writers|snapshot [focus:commit-path]", kind: Kind::Plain, workers: 0, keyspaces: vec!["x", "y"], initial: init.clone(), prerotate: vec![], threads: vec![vec![Batch(vec![("x", "a", "1"), ("y", "b", "1")])], vec![Batch(vec![("x", "b", "1"), ("y", "a", "1")])], reader.clone()], finals: Finals::None }, if q { 2 } else { 3 }, if q { 5.0 } else { 300.0 }));
     v.push(b(VisBody { name: "sw-tx same key in two keyspaces|snapshot", kind: Kind::Sw, workers: 0, keyspaces: vec!["x", "y"], initial: init.clone(), prerotate: vec![], threads: vec![vec![Tx(vec![("x", "a", "1"), ("y", "a", "1")])], vec![SnapRead(vec![("x", "a"), ("y", "a")])]], finals: Finals::None }, 1, if q { 3.0 } else { 60.0 }));
     v.push(b(VisBody { name: "occ-tx same key in two keyspaces|snapshot", kind: Kind::Occ, workers: 0, keyspaces: vec!["x", "y"], initial: init.clone(), prerotate: vec![], threads: vec![vec![Tx(vec![("x", "b", "1"), ("y", "b", "1")])], vec![SnapRead(vec![("x", "b"), ("y", "b")])]], finals: Finals::None }, 1, if q { 3.0 } else { 60.0 }));
     if !q {
